@@ -7,5 +7,10 @@ export CARGO_NET_OFFLINE=true
 export CARGO_TARGET_DIR="$PWD/build/target"
 [ -f harness/Cargo.lock ] || cp /repo/Cargo.lock harness/Cargo.lock
 (cd harness && cargo build --release --offline 2>&1 | tail -3)
-(cd lean && lake build 2>&1 | tail -3)
+# Lean: every claimed property's theorem module and driver executable
+TARGETS=$(python3 -c "
+import json
+m=json.load(open('MANIFEST.json'))
+print(' '.join('ScryerModel.Props.%s drv_%s' % (c['property_id'], c['property_id']) for c in m['checks']))")
+(cd lean && lake build $TARGETS 2>&1 | tail -5)
 echo setup-done
